@@ -60,7 +60,7 @@ pub fn generate_c10(opts: &Opts, sink: &mut CaseSink) {
         let limit = *rng.pick(&[30i64, 500, 20000, 1_000_000_000]);
         let p = if i % 4 == 3 {
             // iterate: small bodies without expansion (large expansions deadlock: known finding F9)
-            let body: Vec<Op1> = body.into_iter().filter(|o| !matches!(o, Op1::FlatRep(_) | Op1::Nested(_, _, _))).collect();
+            let body: Vec<Op1> = body.into_iter().filter(|o| !matches!(o, Op1::FlatRep(_) | Op1::Nested(_, _, _) | Op1::NestedO(_, _, _))).collect();
             Pipe::Iterate(Box::new(src), bound, limit, body, rng.chance(1, 2))
         } else {
             Pipe::Replay(Box::new(src), bound, limit, body)
@@ -73,8 +73,21 @@ pub fn generate_c10(opts: &Opts, sink: &mut CaseSink) {
         ];
         emit(sink, &p, &configs, watchdog);
     }
+    // nested loops whose inner body, behind a shuffle, reads the OUTER loop's state: right on
+    // one host, possibly stale on several (known finding F12) — several multi-host runs each
+    for i in 0..(if opts.thorough { 6 } else { 2 }) {
+        let src = Pipe::Src(true, (0..40).map(|v| (v % 5, v)).collect());
+        let inner = if i % 2 == 0 { vec![Op1::Shuffle, Op1::AddState, Op1::Shuffle] } else { vec![Op1::Shuffle, Op1::AddState, Op1::MapAdd(1)] };
+        let p = Pipe::Replay(Box::new(src), 4, 1_000_000_000_000, vec![Op1::NestedO(2, 1_000_000_000_000, inner)]);
+        let mut configs = vec![(Deploy::Local(1), Mode::Fixed(1024)), (Deploy::Local(4), pipe::random_mode(&mut rng))];
+        // small batches and several hosts: measured to go wrong in most runs (nvh PROBE_F12)
+        for j in 0..6 {
+            configs.push((Deploy::Remote(if j % 2 == 0 { vec![2, 2, 2] } else { vec![1, 1, 1] }), [Mode::Single, Mode::Fixed(1), Mode::Adaptive(4, 5)][j % 3]));
+        }
+        emit(sink, &p, &configs, watchdog);
+    }
 }
-pub const RULE_C10: &str = "replay (75%) and iterate (25%) loops on the real engine: bodies that add the loop state to every value plus random maps / filters / flat_maps / shuffles / keyed aggregations and, for replay, nested replay loops; bounds 0..6, stop conditions on the state (30 .. never), inputs of 0..120 elements; each under local(1), local(2..8) and a 2..3-host deployment with random batch modes. Non-trivial: >=2 input elements; distinct = distinct case terms";
+pub const RULE_C10: &str = "replay (75%) and iterate (25%) loops on the real engine: bodies that add the loop state to every value plus random maps / filters / flat_maps / shuffles / keyed aggregations and, for replay, nested replay loops (a quarter of them reading the enclosing loop's state in the inner body, plus dedicated cases of that shape run six times on 3 hosts); bounds 0..6, stop conditions on the state (30 .. never), inputs of 0..120 elements; each under local(1), local(2..8) and a 2..3-host deployment with random batch modes. Non-trivial: >=2 input elements; distinct = distinct case terms";
 
 // ---------------------------------------------------------------- C18
 fn measure_delay(depth: usize, delay_ms: u64) -> (u64, bool) {
